@@ -596,6 +596,32 @@ func init() {
 		r := fr.i.concreteInt(a[1], "rune")
 		return fr.i.path.mkIndexOf(a[0], string(rune(r)), int64(0))
 	})
+	reg("strings.IndexAny", func(fr *frame, a []value) value {
+		p := fr.i.path
+		if concreteStrs(a[0], a[1]) {
+			return int64(strings.IndexAny(a[0].(string), a[1].(string)))
+		}
+		chars, ok := a[1].(string)
+		if !ok {
+			unsup("strings.IndexAny with symbolic character set")
+		}
+		for _, c := range chars {
+			if c >= 0x80 {
+				unsup("strings.IndexAny with non-ASCII characters on symbolic string")
+			}
+		}
+		// minimum over the per-character first indices (-1 if none)
+		var best value = int64(-1)
+		for k := 0; k < len(chars); k++ {
+			idx := fr.i.compact(p.mkIndexOf(a[0], chars[k:k+1], int64(0)))
+			take := mkAnd(p.mkIntCmp(">=", idx, int64(0)), mkOr(p.mkIntCmp("<", best, int64(0)), p.mkIntCmp("<", idx, best)))
+			best = mkIte(take, idx, best)
+			if bs, ok := best.(*Sym); ok {
+				bs.lo, bs.hi = bi(-1), bi(maxStrLen)
+			}
+		}
+		return best
+	})
 	reg("strings.LastIndex", func(fr *frame, a []value) value {
 		if concreteStrs(a[0], a[1]) {
 			return int64(strings.LastIndex(a[0].(string), a[1].(string)))
